@@ -219,7 +219,8 @@ def oracle_c06(tr, sc):
             V('start_beyond_Tend', 'run', f'step attempted at t={a["t"]!r} >= Tend={Tend!r}')
             break
     N = len(acc)
-    rho = 2 * EPS * max(abs(t0), abs(Tend), 1.0) * max(N, 1)
+    # accumulated rounding of N additions, plus the controller's own absolute activity threshold of 10*eps
+    rho = 2 * EPS * max(abs(t0), abs(Tend), 1.0) * max(N, 1) + 10 * EPS
     if not aborted:
         last = acc[-1]
         if last['t'] + last['dt'] < Tend - rho:
@@ -241,7 +242,7 @@ def oracle_c06(tr, sc):
         dt = acc[0]['dt']
         scale = 2 * EPS * max(abs(t0), abs(Tend), 1.0)
         n = max(int((Tend - t0) / dt) - 2, 0)
-        while not (t0 + n * dt >= Tend - scale * max(n, 1)):
+        while not (t0 + n * dt >= Tend - scale * max(n, 1) - 10 * EPS):
             n += 1
         n_lo = n  # Tend reached up to accumulated rounding
         n_exact = max(n_lo - 2, 0)  # smallest N with t0 + N*dt >= Tend in exact rational arithmetic on the given floats
@@ -249,7 +250,7 @@ def oracle_c06(tr, sc):
             n_exact += 1
         if not (n_lo <= N <= max(n_exact, n_lo)):
             last = acc[-1]
-            sliver = N == max(n_exact, n_lo) + 1 and last['t'] >= Tend - scale * max(N, 1)
+            sliver = N == max(n_exact, n_lo) + 1 and last['t'] >= Tend - scale * max(N, 1) - 10 * EPS
             V(
                 'step_count',
                 'run',
